@@ -111,17 +111,17 @@ def graph_body(n, e0, e1, e2, e3, d01, d02, d03, d12, d13, d23, cls):
 
 def near_cutoff(e0, e1, delta, tmag, axis, direction):
     """two atoms at distance cutoff +- delta, the pair translated by up to 1e6 along an axis: the connectivity is that of the untranslated pair
-    (the pair is 1e-4 .. 1e-2 A away from the threshold, i.e. many orders of magnitude above the resolution of float64 at 1e6)"""
+    (the pair is 1e-6 .. 1e-3 A away from the threshold, i.e. many orders of magnitude above the resolution of float64 at 1e6)"""
     from stereomolgraph.coords import BondsFromDistance
     from stereomolgraph.periodic_table import COVALENT_RADII
     small = [1, 6, 8, 17, 35, 78]
     els = [small[e0], small[e1]]
     cut = 1.2 * (COVALENT_RADII[els[0]] + COVALENT_RADII[els[1]])
-    d = cut + [-1e-2, -1e-3, -1e-4, 1e-4, 1e-3, 1e-2][delta]
+    d = cut + [-1e-3, -1e-4, -1e-5, -1e-6, 1e-6, 1e-5, 1e-4, 1e-3][delta]
     dirs = [np.array([1.0, 0, 0]), np.array([0, 1.0, 0]), np.array([0.6, 0.8, 0.0]), np.array([1.0, 2.0, 2.0]) / 3.0]
     base = np.array([[0.0, 0.0, 0.0], list(dirs[direction] * d)])
-    shift = np.zeros(3)
-    shift[axis] = [0.0, 1e3, 1e5, 1e6, -1e6][tmag]
+    T = [0.0, 1e3, 1e5, 1e6, -1e6][tmag]
+    shift = [np.array([T, 0, 0]), np.array([0, T, 0]), np.array([0, 0, T]), np.array([T, T, T]), np.array([T, -T, 0.5 * T]), np.array([0.3 * T, T, -0.7 * T])][axis]
     exp = 1 if d < cut else 0
     for pts in (base, base + shift, base[::-1] + shift):
         m = BondsFromDistance().array(pts, els)
@@ -133,7 +133,7 @@ def near_cutoff(e0, e1, delta, tmag, axis, direction):
 def plan(tier, seed):
     units = []
     units.append(Sel(name="near_cutoff_translated", func="vp.props.C20:near_cutoff",
-                     params={"e0": (0, 6), "e1": (0, 6), "delta": (0, 6), "tmag": (0, 5), "axis": (0, 3), "direction": (0, 4)},
+                     params={"e0": (0, 6), "e1": (0, 6), "delta": (0, 8), "tmag": (0, 5), "axis": (0, 6), "direction": (0, 4)},
                      pre=["e0 <= e1"] + (["e0 in (0, 1, 5)", "direction in (0, 3)"] if tier == "quick" else []), shard_by=[], timeout=1200, nontrivial="tmag > 0"))
     if tier == "quick":
         params = {"n": (1, 4), "e0": (0, len(E0_QUICK)), "e1": (0, 2), "e2": (0, 2), "c0": (0, len(CORNERS)), "c1": (0, 3), "c2": (0, 3),
